@@ -304,14 +304,14 @@ class PoolProp:
 
     @staticmethod
     def deadlock_signature(cfg, env, status):
-        # D19: __exit__ blocked on its stop orders with an int work-queue bound below the number of workers that retired
-        # unreplaced; every other thread has finished
+        # D19: __exit__ blocked on its stop orders with an effective work-queue bound (int, or int(workers*float)) below the
+        # number of listed workers, some of which retired unreplaced; every other thread has finished
         blocked = status.split(":", 1)[1] if ":" in status else ""
-        wc = cfg.work_cap
-        if blocked == "C@workQ.put" and cfg.factory and isinstance(wc, int) and not isinstance(wc, bool):
+        wc = cfg.work_cap_int()  # the effective bound: an int as given, or int(workers * float)
+        if blocked == "C@workQ.put" and cfg.factory and wc is not None and 0 < wc < len(env.final_procs):
             exited = sum(1 for _, code in env.final_procs if code is not None)
-            if wc < len(env.final_procs) and exited > 0:
-                return "exit-blocked-stop-order(workCap<int-retired-unreplaced)"
+            if exited > 0:
+                return "exit-blocked-stop-order(work-queue-bound<workers,retired-unreplaced)"
         return "deadlock:" + blocked
 
     # ---- main ------------------------------------------------------------------------------------------------------------
